@@ -2064,6 +2064,19 @@ bus_activation_activate_service (BusActivation  *activation,
     {
       _dbus_verbose ("Failed to add pending activation cancel hook to transaction\n");
       BUS_SET_OOM (error);
+
+      if (was_pending_activation)
+        {
+          /* Others are already waiting for this activation: only take
+           * back the entry we have just added to it. */
+          _dbus_list_remove_last (&pending_activation->entries,
+                                  pending_activation_entry);
+          pending_activation->n_entries -= 1;
+          pending_activation->activation->n_pending_activations -= 1;
+          bus_pending_activation_entry_free (pending_activation_entry);
+          return FALSE;
+        }
+
       goto cancel_pending_activation;
     }
 
